@@ -30,7 +30,7 @@ def tasks(tier):
         for nf in (1, 2):
             t.append(("t_config_params", {"assemblage": a, "n_fractions": nf, "fabric": letter}))
     t += [("t_config_output", {"assemblage": a}) for a in (["olivine"], ["olivine", "enstatite"])]
-    t += [("t_config_input", {}), ("t_config_modes", {})]
+    t += [("t_config_input", {}), ("t_config_modes", {}), ("t_config_special_values", {})]
     return t
 
 
@@ -574,6 +574,60 @@ def t_config_modes(sess):
                    z3.And(z3.Implies(z3.Not(outp), z3.BoolVal(opaths is None)),
                           z3.Implies(outp, z3.BoolVal((opaths is None) if has_in_paths else (opaths == ["o.scsv"])))))
     sess.prove(f"{tag}: all four modes reached", [], z3.BoolVal(reached == {"mesh", "calc", "post", "none"}))
+
+
+def t_config_special_values(sess):
+    """Values the real-arithmetic model cannot represent (NaN, infinities) and wrongly typed entries that TOML can
+    nevertheless express: the real _parse_config_params on a finite table of them (concrete evaluation).  Every entry
+    violates "fractions sum to one / enumeration-typed phases and fabric", so each must raise ConfigError."""
+    pio = _io()
+    core = pydrex_modules()["core"]
+    sess.encode(pio._parse_config_params)
+    nan, inf = float("nan"), float("inf")
+    bad = {
+        "fractions [nan]": dict(phase_assemblage=["olivine"], phase_fractions=[nan]),
+        "fractions [nan, 0.5]": dict(phase_assemblage=["olivine", "enstatite"], phase_fractions=[nan, 0.5]),
+        "fractions [inf, -inf]": dict(phase_assemblage=["olivine", "enstatite"], phase_fractions=[inf, -inf]),
+        "fractions [inf]": dict(phase_assemblage=["olivine"], phase_fractions=[inf]),
+        "fabric 1 (integer)": dict(initial_olivine_fabric=1),
+        "fabric 1.5 (float)": dict(initial_olivine_fabric=1.5),
+        "fabric ['A'] (list)": dict(initial_olivine_fabric=["A"]),
+        "fabric 'a' (lower case)": dict(initial_olivine_fabric="a"),
+        "phase 0.0 (float)": dict(phase_assemblage=[0.0], phase_fractions=[1.0]),
+        "phase -1": dict(phase_assemblage=[-1], phase_fractions=[1.0]),
+        "phase 'Olivine'": dict(phase_assemblage=["Olivine"], phase_fractions=[1.0]),
+    }
+    good = {
+        "fractions [1] (integer one)": dict(phase_assemblage=["olivine"], phase_fractions=[1]),
+        "fractions [0.25, 0.75]": dict(phase_assemblage=["enstatite", "olivine"], phase_fractions=[0.25, 0.75]),
+        "fractions [-0.0, 1.0]": dict(phase_assemblage=["enstatite", "olivine"], phase_fractions=[-0.0, 1.0]),
+    }
+    sess.satisfiable("config special values: reach", [])
+    first = None
+    for label, tab in bad.items():
+        try:
+            pio._parse_config_params({"parameters": dict(tab)})
+            res = "accepted"
+        except Exception as e:  # noqa: BLE001
+            res = type(e).__name__
+        q = sess.prove(f"config special values: {label} raises ConfigError (got: {res})", [], z3.BoolVal(res == "ConfigError"))
+        if not q.holds:
+            ce = {"name": q.name, "case": {}, "cls": {"kind": "invalid special-valued configuration not refused with ConfigError", "entry": label, "outcome": res}}
+            if first is None:
+                first = q.name
+                ce["replay"] = "vf.props.replays:c19_config"
+            else:
+                ce["same_as"] = first
+            sess.cex.append(ce)
+    for label, tab in good.items():
+        try:
+            out = pio._parse_config_params({"parameters": dict(tab)})
+            ok = len(out["phase_assemblage"]) == len(out["phase_fractions"]) and abs(sum(out["phase_fractions"]) - 1) <= 1e-16 and all(
+                isinstance(x, core.MineralPhase) for x in out["phase_assemblage"]) and isinstance(out["initial_olivine_fabric"], core.MineralFabric)
+            res = "parsed" if ok else "parsed with inconsistent lists"
+        except Exception as e:  # noqa: BLE001
+            res = type(e).__name__
+        sess.prove(f"config special values: {label} parses with consistent, enumeration-typed lists (got: {res})", [], z3.BoolVal(res == "parsed"))
 
 
 def default_cex(name):
